@@ -243,7 +243,17 @@ def e2e_cases(ctx, rng, count):
             ast_ = now.replace(microsecond=0) - datetime.timedelta(seconds=rng.choice([2, 5, 9, 14, 21, 33, 50]))
             start = "pow2"
             young = True
-        if start == "pow2":
+        if i % 9 == 4 and start != "pow2":
+            # an explicit start written with a UTC offset (every sign / whole / fractional hour form in turn): the
+            # instant, not its wall-clock digits, has to reach the media requests
+            off = [-330, 120, -570, 345, -30, 840, -720, -60, 765][(i // 9) % 9]
+            age = rng.choice([rng.randrange(70, 4000), rng.randrange(4000, 10 ** 7)])
+            st = (now - datetime.timedelta(seconds=age)).replace(microsecond=0) + datetime.timedelta(minutes=off)
+            opts.append("start=" + st.strftime("%Y-%m-%dT%H:%M:%S") + f"{'%2B' if off >= 0 else '-'}{abs(off) // 60:02d}:{abs(off) % 60:02d}")
+            start = "offset"
+        if start == "offset":
+            pass
+        elif start == "pow2":
             opts.append("start=" + ast_.strftime("%Y-%m-%dT%H:%M:%SZ"))
         elif start == "explicit":
             age = rng.choice([rng.randrange(70, 4000), rng.randrange(4000, 10 ** 7)])
